@@ -135,7 +135,44 @@ def k8(args):
     return [fr(out), dd, fr(v), fr(g2) * sx.q(b[1])]
 
 
-HANDLERS = {1: k1, 2: k2, 8: k8}
+def k9(args):
+    """formula level: the bound a connective formula / a Forall / an Exists over it STORES after upward(), and its
+    directional derivative w.r.t. (bias, weights) of the connective, through the library's default activation"""
+    mode, c, b, ws, rows, lower = args
+    cls = {0: And, 1: Or, 2: Implies}[c]
+    n = len(ws)
+    act = {"bias": fl(b[0]), "weights": tuple(fl(w[0]) for w in ws), "bias_learning": True}
+    model = Model()
+    if mode == 0:
+        atoms = [Proposition(f"a{i}") for i in range(n)]
+        f = cls(*atoms, activation=act)
+        model.add_knowledge(f)
+        model.add_data({a: (fl(x[0]), fl(x[1])) for a, x in zip(atoms, rows[0])})
+        top = f
+    else:
+        x = Variable("x")
+        preds = [Predicate(f"p{i}") for i in range(n)]
+        f = cls(*[p(x) for p in preds], activation=act)
+        top = (Forall if mode == 1 else Exists)(x, f)
+        model.add_knowledge(top)
+        model.add_data({p: {f"c{j}": (fl(r[i][0]), fl(r[i][1])) for j, r in enumerate(rows)} for i, p in enumerate(preds)})
+    model.upward()
+    d = top.get_data()
+    while d.dim() > 1:
+        d = d[0]
+    out = d[0 if lower else 1]
+    dd = F(0)
+    if out.requires_grad:
+        gb, gw = torch.autograd.grad(out, [f.neuron.bias, f.neuron.weights], allow_unused=True)
+        if gb is not None:
+            dd += fr(gb) * sx.q(b[1])
+        if gw is not None:
+            for g, w in zip(gw.tolist(), ws):
+                dd += F(g) * sx.q(w[1])
+    return [fr(out), dd]
+
+
+HANDLERS = {1: k1, 2: k2, 8: k8, 9: k9}
 
 try:
     import impl_prop
